@@ -144,7 +144,7 @@ func checkSortJSON(c *fw.Ctx) {
 	if root == nil {
 		return
 	}
-	reach := fw.ReachableFuncs(c.P.VTA(), []*ssa.Function{root}, func(f *ssa.Function) bool { return c.P.IsRepoFunc(f) })
+	reach := fw.ReachableFuncs(c.Graph(), []*ssa.Function{root}, func(f *ssa.Function) bool { return c.P.IsRepoFunc(f) })
 	var fns []*ssa.Function
 	for f := range reach {
 		if c.P.IsRepoFunc(f) {
